@@ -799,7 +799,7 @@ benign('B-helper-extracted-status-setter', ['C02', 'C05'], [
 # extraction, match <-> combinator, early returns, renames, reordered pure statements, added tracing).
 # Every property must stay silent on them, and defects seeded ON TOP of them must still be reported.
 ALLP = ['C%02d' % i for i in range(1, 18)]
-for _r in ('R1', 'R2', 'R3', 'R4', 'R5', 'R6', 'S1', 'S2', 'S3', 'S4', 'S5', 'S6', 'T3', 'T1', 'T2'):
+for _r in ('R1', 'R2', 'R3', 'R4', 'R5', 'R6', 'S1', 'S2', 'S3', 'S4', 'S5', 'S6', 'T3', 'T1', 'T2', 'G1'):
     benign(f'B-refactor-{_r}', ALLP, [], patch=f'sa/benign/{_r}.diff')
 
 IDB = 'src/incarnation_db.rs'
@@ -818,6 +818,15 @@ mutant_on('sa/benign/T2.diff', 'T2+estimate-flag-not-forwarded', ['C01'], [
 mutant_on('sa/benign/T2.diff', 'T2+publish-ignores-context-estimate', ['C01'], [
     (IDB, "MemoryEntry::new(self.version.incarnation, value, out.estimate),", "MemoryEntry::new(self.version.incarnation, value, false),"),
 ], ['|W1|'])
+mutant_on('sa/benign/G1.diff', 'G1+replay-evaluated-before-the-election-result', ['C14'], [
+    ('src/scheduler/fallback.rs', "        let _lifecycle = self.begin_execution()?;\n        self.replay_uncommitted_suffix(CommittedPrefixEnd::ZERO)", "        self.begin_execution().and(self.replay_uncommitted_suffix(CommittedPrefixEnd::ZERO))"),
+], ['|O2|'])
+mutant_on('sa/benign/G1.diff', 'G1+weak-election', ['C14'], [
+    ('src/scheduler/control.rs', "self.started.compare_exchange(false, true, Ordering::Relaxed, Ordering::Relaxed)", "self.started.compare_exchange_weak(false, true, Ordering::Relaxed, Ordering::Relaxed)"),
+], ['|O2|'])
+mutant_on('sa/benign/G1.diff', 'G1+election-result-ignored', ['C14'], [
+    ('src/scheduler/fallback.rs', "        let _lifecycle = self.begin_execution()?;\n", "        let _lifecycle = self.begin_execution();\n"),
+], ['|O2|'])
 mutant_on('sa/benign/R3.diff', 'R3+storage-gt-instead-of-ge', ['C08'], [
     (IDB, "(Some((slot_txid, value)), Some(reset_txid)) if slot_txid >= reset_txid => Ok(value),", "(Some((slot_txid, value)), Some(reset_txid)) if slot_txid > reset_txid => Ok(value),"),
 ], ['|D3|'])
@@ -923,6 +932,9 @@ mutant('LC5-execute-stale-test-inverted', ['C05', 'C02'], [(S, """        if tx_
             self.abort(AbortReason::ParallelError {
                 txid,
                 message: "inconsistent incarnation during execution",""")], ['|LC5|'])
+mutant('LC9-finality-probe-uses-try_lock', ['C17', 'C05'], [
+    (S, "        let tx_state = self.tx_states[finality_idx].lock();\n        if tx_state.status != TransactionStatus::Unconfirmed {", "        let tx_state = self.tx_states[finality_idx].try_lock()?;\n        if tx_state.status != TransactionStatus::Unconfirmed {"),
+], ['|LC9|'])
 mutant('LC5-validate-stale-test-inverted', ['C05'], [(S, """        if tx_state.incarnation != incarnation {
             self.abort(AbortReason::ParallelError {
                 txid,
